@@ -2,7 +2,7 @@
 
 A fully enumerated grid: body sizes around the limits x max_body_size x max_memfile_size x
 framing (Content-Length; chunked with chunk sizes 1, B-1, B, B+1, 10B) x content kind (raw,
-urlencoded, multipart text field, multipart file part).  Oracle = arithmetic on the configured
+urlencoded, multipart text field, multipart text spread over several fields, multipart file part).  Oracle = arithmetic on the configured
 limits + the byte count of the recording wsgi.input (for chunked framing the *payload* bytes
 inside the consumed prefix, from the encoder's offset table) + type(Request.body) + content
 equality, all observed from a handler behind Ombott.__call__.
@@ -13,7 +13,7 @@ from vmon.wsgi import make_environ, call_app, RecStream
 RULE = ('grid cells (size, max_body_size L, max_memfile_size B, framing, content kind), sizes in {0,1,L-1,L,L+1,L+B-1,L+B,L+B+1,10L} (relative to B '
         'when there is no limit), L in {None,0,1,17,100,4096}, B in {1,16,100,4096}; each cell is one request through Ombott.__call__ whose handler '
         'reads the body the way the content kind asks. Non-trivial = the size is within one buffer of a limit or above it; distinct = distinct cell.')
-REQUIRED = ['rejected_413', 'accepted_within_limit', 'spooled_to_disk', 'kept_in_memory', 'consumption_checked', 'chunked_cells', 'cl_cells',
+REQUIRED = ['multipart_text_over_threshold_in_several_fields', 'rejected_413', 'accepted_within_limit', 'spooled_to_disk', 'kept_in_memory', 'consumption_checked', 'chunked_cells', 'cl_cells',
             'urlencoded_refused_over_threshold', 'multipart_text_refused_over_threshold', 'multipart_file_over_threshold_delivered',
             'content_compared', 'exactly_at_limit_accepted', 'one_over_limit_rejected']
 EXHAUSTIVE = {'quick': False, 'thorough': False, 'quick_note': 'the grid units enumerate the grid without L=4096/B=4096 completely; random units add seeded off-grid cells', 'thorough_note': 'the grid units enumerate the whole grid completely; random units add seeded off-grid cells'}
@@ -59,6 +59,18 @@ def make_body(kind, size):
         val = 'x' * (size - 2)
         return ('a=' + val).encode(), {'forms': {'a': val}}
     data = bytes(97 + (i * 7) % 26 for i in range(size))
+    if kind == 'mp_texts':
+        # the same amount of text spread over four fields, each below the threshold on its own
+        k = 4
+        pieces = [data[i * size // k:(i + 1) * size // k] for i in range(k)]
+        out = bytearray()
+        hdr = 0
+        for i, pc in enumerate(pieces):
+            h = f'Content-Disposition: form-data; name="t{i}"'
+            hdr += len(h)
+            out += f'--{BOUNDARY}\r\n{h}\r\n\r\n'.encode() + pc + b'\r\n'
+        out += f'--{BOUNDARY}--\r\n'.encode()
+        return bytes(out), {'data': data, 'hdr_len': hdr, 'pieces': pieces}
     if kind == 'mp_text':
         head = f'--{BOUNDARY}\r\nContent-Disposition: form-data; name="t"\r\n\r\n'.encode()
         hdr_len = len('Content-Disposition: form-data; name="t"')
@@ -165,6 +177,27 @@ def cell(ctx, app, seen, S_target, L, B, framing, kind, grid=False):
         return
     data = info['data']
     V = len(data)
+    if kind == 'mp_texts':
+        got = seen.get('forms') or {}
+        allthere = r.code == 200 and all(got.get(f't{i}') == pc.decode() for i, pc in enumerate(info['pieces']))
+        if V > B + 0 and max(len(pc) for pc in info['pieces']) <= B:
+            ctx.count('multipart_text_over_threshold_in_several_fields')
+        if V > B:
+            if allthere:
+                ctx.violation('multipart-text-over-threshold-loaded-when-spread-over-several-fields',
+                              f'{where}: {V} bytes of text in {len(info["pieces"])} fields all delivered (threshold {B})', wit)
+            else:
+                ctx.count('multipart_text_refused_over_threshold')
+            return
+        if info['hdr_len'] + V <= B:
+            if not allthere:
+                ctx.violation('body-within-limit-rejected', f'{where}: {r.status} forms {str(got)[:80]} {r.errors[-200:]}', wit)
+                return
+            ctx.count('accepted_within_limit')
+            ctx.count('content_compared')
+        else:
+            ctx.count('multipart_text_between_bounds_either_accepted')
+        return
     if kind == 'mp_text':
         if V > B:
             if r.code == 200 and 't' in (seen.get('forms') or {}):
@@ -246,7 +279,7 @@ def random_unit(ctx, unit):
             framing = rng.choice(['cl', 'cl', rng.randint(1, 2 * B + 5), B, B + 1])
             if framing != 'cl' and (framing == 1 and S > 3000):
                 framing = 7
-            kind = rng.choice(['raw', 'raw', 'urlencoded', 'mp_text', 'mp_file'])
+            kind = rng.choice(['raw', 'raw', 'urlencoded', 'mp_text', 'mp_file', 'mp_texts'])
             cell(ctx, app, seen, S, L, B, framing, kind)
         if i % 300 == 0:
             ctx.sample({'random_cell': {'max_body_size': L, 'max_memfile_size': B, 'last_size': S, 'framing': str(framing), 'kind': kind}})
@@ -264,10 +297,10 @@ def grid_unit(ctx, unit):
         for framing in framings:
             if framing == 1 and S > 20000:
                 continue
-            for kind in ('raw', 'urlencoded', 'mp_text', 'mp_file'):
+            for kind in ('raw', 'urlencoded', 'mp_text', 'mp_file', 'mp_texts'):
                 cell(ctx, app, seen, S, L, B, framing, kind, grid=True)
     ctx.sample({'max_body_size': L, 'max_memfile_size': B, 'sizes': sizes_for(L, B), 'framings': [str(f) for f in framings],
-                'content_kinds': ['raw', 'urlencoded', 'mp_text', 'mp_file']})
+                'content_kinds': ['raw', 'urlencoded', 'mp_text', 'mp_file', 'mp_texts']})
 
 
 def run_unit(ctx, unit):
